@@ -354,6 +354,18 @@ def apply_op(m, op, world=None):
         assign_from(m, world.roots[op['from']], op['x'], op['fx'], op['via'])
     elif o == 'assignValues':
         m.values = world.roots[op['from']].values
+    elif o == 'dictDel':
+        del navigate(m, op['f'])[op['k']]
+    elif o == 'useName':
+        try:   # a read through a name; a failed look-up is a use too
+            if op['how'] == 'item':
+                m[op['x']]
+            elif op['how'] == 'attr':
+                getattr(m, op['x'])
+            else:
+                op['x'] in m
+        except Exception:   # noqa: BLE001
+            pass
     elif o == 'buildAttr':
         m.add_attribute(op['x'], build_value(op['spec']))
     elif o == 'setAt':
